@@ -200,6 +200,59 @@ def evalfail_histories(rng, thorough):
     return out
 
 
+# ---------------------------------------------------------------- calls whose scripts are terminated (terminate <script>)
+# (name, [texts of the triggering call(s)], what the LAST of them logs (None: not fixed by the property))  Every way a script of a call can
+# be terminated: by itself before it yields (sleep, waitUntil, a loop longer than a slice), by itself as its last statement, inside a
+# nested call, by a sibling, by the main script, while sleeping / while busy, as the last script alive and with others alive, and through
+# a handle kept in a global by the NEXT call.  The contract is the same for all: the call returns 0, the instance is idle, the next
+# call runs and delivers its value and diagnostics under its own call data.
+_BUSYLOOP = 'for "_i" from 1 to 1000 do { zz = _i }'
+TERMINATE = [
+    ("self-before-sleep-last-alive", ['[] spawn { diag_log "a"; terminate _thisScript; sleep 0.01; diag_log "b" }; 1'], ["a"]),
+    ("self-first-thing-before-sleep", ['[] spawn { terminate _thisScript; sleep 0.01 }; 1'], []),
+    ("self-before-sleep-others-alive", ['[] spawn { sleep 0.05; diag_log "c" }; [] spawn { diag_log "a"; terminate _thisScript; sleep 0.01; diag_log "b" }; 1'], ["a", "c"]),
+    ("self-before-sleep-after-others-ended", ['[] spawn { diag_log "c" }; [] spawn { sleep 0.02; diag_log "a"; terminate _thisScript; sleep 0.01; diag_log "b" }; 1'], ["c", "a"]),
+    ("self-as-last-statement", ['[] spawn { diag_log "a"; terminate _thisScript }; 1'], ["a"]),
+    ("self-before-waituntil", ['[] spawn { diag_log "a"; terminate _thisScript; waitUntil { false }; diag_log "b" }; 1'], None),   # (waitUntil ends on any boolean in this tree)
+    ("self-before-long-loop", ['[] spawn { terminate _thisScript; %s; diag_log "b" }; 1' % _BUSYLOOP], []),
+    ("self-inside-nested-call", ['[] spawn { call { terminate _thisScript }; sleep 0.01; diag_log "b" }; 1'], []),
+    ("self-after-a-sleep-then-sleep", ['[] spawn { sleep 0.01; diag_log "a"; terminate _thisScript; sleep 0.01; diag_log "b" }; 1'], ["a"]),
+    ("two-self-terminating", ['[] spawn { terminate _thisScript; sleep 0.01 }; [] spawn { terminate _thisScript; sleep 0.02 }; 1'], []),
+    ("self-terminating-and-main-long", ['[] spawn { terminate _thisScript; sleep 0.01; diag_log "b" }; %s; 1' % _BUSYLOOP], []),
+    ("by-sibling-while-sleeping", ['gh = [] spawn { sleep 0.05; diag_log "b" }; [] spawn { terminate gh; diag_log "k" }; 1'], ["k"]),
+    ("by-later-sibling-after-sleep", ['gh = [] spawn { sleep 0.2; diag_log "b" }; [] spawn { sleep 0.02; terminate gh; diag_log "k" }; 1'], ["k"]),
+    ("by-main-while-sleeping", ['gh = [] spawn { sleep 0.02; diag_log "b" }; terminate gh; diag_log "m"; 1'], ["m"]),
+    ("by-main-before-it-ran", ['gh = [] spawn { diag_log "b"; %s; diag_log "c" }; terminate gh; diag_log "m"; 1' % _BUSYLOOP], None),
+    ("victim-terminates-killer-too", ['gh = [] spawn { sleep 0.01; terminate gk; diag_log "v" }; gk = [] spawn { sleep 0.05; terminate gh; diag_log "k" }; 1'], ["v"]),
+    ("by-next-call-finished-script", ['gh = [] spawn { sleep 0.01; diag_log "b" }; 1', 'terminate gh; diag_log [scriptDone gh]; 2'], ["[true]"]),
+    ("by-next-call-then-self", ['gh = [] spawn { diag_log "b" }; 1', 'terminate gh; [] spawn { terminate _thisScript; sleep 0.01; diag_log "n" }; diag_log "m"; 2'], ["m"]),
+    ("control-sleeping-script-runs-out", ['[] spawn { diag_log "a"; sleep 0.01; diag_log "b" }; 1'], ["a", "b"]),
+]
+
+
+def terminate_histories(rng):
+    out = []
+    for nm, trig, logs in TERMINATE:
+        g = rng.randint(2, 99)
+        h = Hist(); h.add(op="C", user=7, mr=0)
+        h.add(op="K", h="0", cd=80, ty="s", text=("ga = %d" % g).encode(), cls="expect", expect=[])
+        for j, t in enumerate(trig):
+            o = dict(op="K", h="0", cd=81 + j, ty="s", text=t.encode(), cls="expect", terminate=nm)
+            if j == len(trig) - 1 and logs is not None:
+                o["expect"] = logs
+            elif j < len(trig) - 1:
+                o.pop("terminate")
+            h.add(**o)
+            if j < len(trig) - 1 or rng.random() < 0.6:
+                h.add(op="S", h="0")           # otherwise the next call is the first thing to meet the instance
+        h.add(op="K", h="0", cd=85, ty="s", text=b"diag_log [ga]; ga = ga + 1; ga + 1", cls="expect", expect=["[%d]" % g], value=str(g + 2))
+        h.add(op="S", h="0")
+        h.add(op="K", h="0", cd=86, ty="s", text=b"diag_log [ga]; ga", cls="expect", expect=["[%d]" % (g + 1)], value=str(g + 1))
+        h.add(op="S", h="0"); h.add(op="D", h="0")
+        out.append(("terminate:" + nm, h))
+    return out
+
+
 def add_self_ending(h, rng, i, cd):
     """a call that ends the run itself, a status query, and calls that read / write the globals afterwards"""
     nm, text, stand_in = self_ending(rng)
@@ -344,6 +397,7 @@ def main(replay=None):
             hists.append(("multi:" + nm, h))
         hists += repeat_histories(rng, thorough)
         hists += evalfail_histories(rng, thorough)
+        hists += terminate_histories(rng)
         for shape, ty_, text_, code_, pending_ in EVAL_SPAWN:
             h = Hist(); h.add(op="C", user=6, mr=0)
             h.add(op="K", h="0", cd=51, ty=ty_, text=text_, cls="evalspawn", shape=shape, code=code_)
@@ -587,6 +641,8 @@ def main(replay=None):
                 if "expect" in o and got != o["expect"]:
                     why = ("the call did not preprocess / parse / execute its text anew: it logged %s, the text evaluated with the instance's current "
                            "globals and counters logs %s (text %r)" % (got, o["expect"], o["text"].decode("latin-1")))
+                if why is None and "value" in o and ("M<VALUE %s>" % o["value"]) not in [r[3] for r in recs if len(r) > 3]:
+                    why = "the call did not deliver the value of its script (%s) to the callback: it delivered %s" % (o["value"], [r[3] for r in recs if len(r) > 3])
                 if why is None and o["cls"] == "warns" and not any(r[2] == "2" for r in recs):
                     why = "no warning reached the callback for a text that defines a macro twice"
                 if why is None and "same_as" in o:
